@@ -29,6 +29,8 @@ structure Obj where
   f2 : Option RV := none
   log : List (String × List RV) := []
   prev : Option RV := none
+  /-- package of the object's type when no constructor label tells it (an object written as a struct literal) -/
+  pkg : String := ""
 deriving Repr, Inhabited
 
 abbrev Bag := List (String × RV)
@@ -209,8 +211,9 @@ def callStep (ras : St → Bag → List Output.Arg → St × Bag × Except Strin
     match cur with
     | .ref _ n =>
       if c.immutable then
+        -- the wither is a method of the object's type: it labels its result with that type's package
         let path := match (st'.heap.lookup n) with
-          | some o => ((o.ctor.splitOn ".").dropLast |> String.intercalate ".")
+          | some o => if o.ctor == "" then o.pkg else ((o.ctor.splitOn ".").dropLast |> String.intercalate ".")
           | none => ""
         let (st'', m) := alloc st' { ctor := path ++ "." ++ c.method, args := vals, prev := some cur }
         (st'', bag', .ref true m, errs)
@@ -265,7 +268,11 @@ def createObj (ras : St → Bag → List Output.Arg → St × Bag × Except Stri
     -- the value expression is evaluated at every construction: a struct literal (`&pkg.Obj{}` / `pkg.Obj{}`) is a
     -- fresh object each time (it can then receive fields and calls of its own); other expressions denote what they name
     if s.value.endsWith "{}" then
-      let (st, n) := alloc st { ctor := "", args := [] }
+      let ty := ((stripAmp s.value).2.dropEnd 2).toString
+      let pkg := match ty.splitOn "." with
+        | [a, _] => (p.imports.lookup a).getD a
+        | _ => ""
+      let (st, n) := alloc st { ctor := "", args := [], pkg := pkg }
       (st, bag, .ok (.ref (stripAmp s.value).1 n))
     else (st, bag, .ok (goValue p s.value))
   else (st, bag, .ok (zeroOf s.type))
